@@ -7,7 +7,14 @@ extern int gh_lc_phase;
 extern unsigned long gh_left;     /* bytes the stream can still deliver */
 extern int gh_cur;                /* the next byte (what peek() shows and get() returns) */
 extern int gh_eofbit, gh_failbit;
-extern unsigned long gh_bufn;     /* mirror of buf_.size() at entry (inputs) */
+extern unsigned long gh_bufn;     /* size of the put-back buffer at entry (input) */
+/* snapshot of the stream at the entry of the function under verification */
+extern unsigned long gh_e_m, gh_e_left, gh_e_bufn; extern int gh_e_cur, gh_e_eof, gh_e_fail, gh_e_good; extern char gh_e_buf0;
+/* postcondition bits computed after the call */
+extern int gh_p_effect_ok;        /* reachable stream state, and unchanged-or-progress w.r.t. the entry */
+extern int gh_p_weak_ok;          /* reachable stream state and the measure did not grow */
+extern int gh_p_progress;         /* the measure is strictly smaller than at entry */
+extern int gh_p_result;           /* the function's result was non-nil / non-empty / true (function specific) */
 #ifdef __cplusplus
 }
 #endif
